@@ -89,6 +89,12 @@ func (r *rewriter) expr(e ast.Expr) ast.Expr {
 	}
 	r.children(e)
 	switch x := e.(type) {
+	case *ast.SelectorExpr:
+		if id, ok := x.X.(*ast.Ident); ok && id.Name == "time" && x.Sel.Name == "Now" && r.useTime {
+			r.c.TimeNow++
+			r.used = true
+			return vs("Now")
+		}
 	case *ast.UnaryExpr:
 		if x.Op == token.ARROW {
 			r.c.Recv++
@@ -335,7 +341,7 @@ func rewriteFile(fset *token.FileSet, path string, c *counts, mapNames map[strin
 	if err != nil {
 		return nil, false, err
 	}
-	r := &rewriter{fset: fset, c: c, mapNames: mapNames}
+	r := &rewriter{fset: fset, c: c, mapNames: mapNames, useTime: mapNames != nil}
 	changed := false
 	for _, imp := range f.Imports {
 		if imp.Path.Value == `"sync"` {
